@@ -1021,7 +1021,7 @@ def m_dict_get(I, recv, args, kw):
 
 def m_dict_items(I, recv, args, kw):
     if isinstance(recv, PDict):
-        return tuple((k, v) for k, v in recv.d.items())
+        return tuple((k, v) for k, v in recv.d.items()) + tuple(getattr(recv, "sym_items", []) or [])
     if isinstance(recv, SMapZ):
         # a collection of unknown size: an arbitrary element is a present key with its value (iteration order abstracted;
         # distinctness of the visited keys is NOT modelled - obligations over such loops must not depend on it)
@@ -1042,7 +1042,7 @@ def m_dict_items(I, recv, args, kw):
 
 def m_dict_keys(I, recv, args, kw):
     if isinstance(recv, PDict):
-        return tuple(recv.d.keys())
+        return tuple(recv.d.keys()) + tuple(k for k, _v in getattr(recv, "sym_items", []) or [])
     raise Unsupported("keys() of a symbolic map")
 
 
